@@ -483,6 +483,43 @@ class Interp:
                         return False
         return fn.succ[a][0].dst == fn.succ[b][0].dst
 
+    def cond_text(self, p, b):
+        """Text of the branch condition of block b with locals replaced by the abstract values they hold."""
+        fn = self.fn
+        c = fn.branch_cond(b)
+
+        def r(e, d=0):
+            e = fn.resolve(strip(e)) if isinstance(e, dict) else e
+            if not isinstance(e, dict) or d > 8:
+                return "?"
+            k = e.get("k")
+            if k == "var" and e.get("s") in ("local", "param"):
+                v = self._lookup_raw(p, e["n"])
+                if isinstance(v, Ptr):
+                    return str(v.what)
+                if isinstance(v, int):
+                    return str(v)
+                return "$" + e.get("t", "").replace(" ", "")
+            if k == "int":
+                return e.get("n") or str(e["v"])
+            if k == "null":
+                return "NULL"
+            if k == "mem":
+                kk = self.canon(p, self.key_of(p, e))
+                return kk if kk else r(e["b"], d + 1) + ("->" if e["arrow"] else ".") + e["f"]
+            if k == "call":
+                return (e.get("fn") or "*") + "(" + ",".join(r(a, d + 1) for a in e["a"]) + ")"
+            if k == "bin":
+                return "(" + r(e["l"], d + 1) + e["op"] + r(e["r"], d + 1) + ")"
+            if k == "un":
+                return e["op"] + r(e["e"], d + 1)
+            if k == "cast":
+                return r(e["e"], d + 1)
+            if k == "idx":
+                return r(e["b"], d + 1) + "[" + r(e["i"], d + 1) + "]"
+            return k or "?"
+        return r(c) if c is not None else "?"
+
     # ------------------------------------------------------------------ walking
     def run(self, start=None, stop=None, env=None, start_idx=0):
         """Enumerate paths from block `start` (default entry).  stop(block, path) -> True ends a path
@@ -586,7 +623,7 @@ class Interp:
                     continue
                 if cv is TOP or not tl or not fl:
                     if cv is TOP:
-                        p.undetermined.append((b, show(fn.branch_cond(b), fn), term.get("ln")))
+                        p.undetermined.append((b, self.cond_text(p, b) if getattr(self, "prov_text", False) else show(fn.branch_cond(b), fn), term.get("ln")))
                         if self.on_unknown != "both":
                             p.end, p.reason = b, "undetermined"
                             done.append(p)
